@@ -1,5 +1,265 @@
-//! Environment-level properties (Env / MarketEnv): filled in below.
-use crate::report::Outcome;
+//! Environment-level properties decided with engine `envx`: C08, C10, C11, C14 (environment
+//! part), and the environment clauses of C05, C12, C13.
 
-pub fn c12_env_part(_out: &mut Outcome, _t: bool) {}
-pub fn c13_env_part(_out: &mut Outcome, _t: bool) {}
+use crate::envx::*;
+use crate::report::Outcome;
+use crate::scriptrng::Ans;
+use serde_json::json;
+
+fn fact(n: usize) -> usize {
+    (1..=n).product::<usize>().max(1)
+}
+
+pub fn alpha_for(ticks: &[u32], rich: bool) -> EAlpha {
+    EAlpha {
+        prices: ticks.iter().map(|t| vec![2 * t, 3 * t]).collect(),
+        limit_vols: if rich { vec![1, 2] } else { vec![2] },
+        market_vols: vec![3],
+        cancel: true,
+        modify: true,
+        badnew: false,
+        offgrid_modify: false,
+    }
+}
+
+#[allow(clippy::too_many_arguments)]
+pub fn ecfg(label: &str, multi: bool, ticks: &[u32], step_size: u64, submits: usize, steps: usize, toggles: usize, clauses: &Clauses) -> ECfg {
+    ECfg {
+        label: label.to_string(),
+        multi,
+        ticks: ticks.to_vec(),
+        start: 100,
+        step_size,
+        start_trading: true,
+        max_submit: submits,
+        max_steps: steps,
+        max_toggles: toggles,
+        max_batch: submits,
+        full_scripts_upto: 5,
+        alpha: alpha_for(ticks, false),
+        clauses: clauses.clone(),
+        base: vec![],
+    }
+}
+
+pub fn absorb_env(out: &mut Outcome, cfg: &ECfg, assets: usize, levels: usize, r: (EStats, f64), sig_prefix: &str, need_all_orders: bool) {
+    let (st, wall) = r;
+    eprintln!(
+        "  {:<58} A={} L={:<2} nodes={:>9} steps={:>8} replays={:>10} cands<={} fails={} {:.1}s",
+        cfg.label, assets, levels, st.nodes, st.steps_judged, st.plain_replays, st.max_cands, st.fails.len(), wall
+    );
+    out.add_u64("states", st.nodes);
+    out.add_u64("transitions", st.nodes + st.plain_replays);
+    out.add_u64("traces_validated_against_impl", st.leaves);
+    out.add_u64("steps_judged", st.steps_judged);
+    out.add_u64("plain_replays", st.plain_replays);
+    let cover: serde_json::Map<String, serde_json::Value> = st
+        .orders_seen
+        .iter()
+        .map(|(n, s)| (format!("batch_{}", n), json!({"distinct_processing_orders_observed": s.len(), "n_factorial": fact(*n)})))
+        .collect();
+    out.push(
+        "runs",
+        json!({
+            "label": cfg.label, "multi_asset": cfg.multi, "assets": assets, "levels": levels, "ticks": cfg.ticks,
+            "step_size": cfg.step_size, "max_submissions": cfg.max_submit, "max_steps": cfg.max_steps, "max_toggles": cfg.max_toggles,
+            "base_len": cfg.base.len(), "nodes": st.nodes, "leaves": st.leaves, "steps_judged": st.steps_judged,
+            "plain_replays": st.plain_replays, "max_candidate_schedules_alive": st.max_cands,
+            "schedule_coverage": cover, "features": st.feats, "wall_s": (wall * 100.0).round() / 100.0,
+            "violating_signatures": st.fails.keys().collect::<Vec<_>>(),
+        }),
+    );
+    for s in st.samples.iter().take(1) {
+        out.push("samples", json!(s.iter().map(act_str).collect::<Vec<_>>()));
+    }
+    for (sig, (detail, acts)) in &st.fails {
+        out.fail_other(
+            &format!("{}/{}", sig_prefix, sig),
+            detail.clone(),
+            json!({"engine": "envx", "config": cfg.label, "multi_asset": cfg.multi, "ticks": cfg.ticks, "levels": levels,
+                   "start": cfg.start, "step_size": cfg.step_size, "start_trading": cfg.start_trading,
+                   "actions": acts.iter().map(act_str).collect::<Vec<_>>()}),
+        );
+    }
+    if st.fails.is_empty() {
+        if need_all_orders {
+            for (n, s) in &st.orders_seen {
+                if *n >= 2 && *n <= cfg.full_scripts_upto && s.len() < fact(*n) {
+                    // independent instructions distinguish all n! orders only when they are
+                    // pairwise distinguishable; report, do not fail
+                    out.push("notes", json!(format!("{}: batch size {}: {} of {} processing orders were distinguishable", cfg.label, n, s.len(), fact(*n))));
+                }
+            }
+        }
+        if st.steps_judged == 0 {
+            out.machinery_errors.push(format!("vacuous: no step judged in '{}'", cfg.label));
+        }
+    }
+}
+
+pub fn c08(tier: &str) -> i32 {
+    let mut out = Outcome::new("C08", tier, "model_checking");
+    let t = crate::bookprops::thorough(tier);
+    let cl = Clauses { sched: true, model: true, ..Default::default() };
+    let s = if t { 5 } else { 4 };
+    // single asset, batch size reaching exactly the step size
+    let c = ecfg("Env<3>: step size == max batch", false, &[1], s as u64, s, 2, 0, &cl);
+    absorb_env(&mut out, &c, 1, 3, run_env::<1, 3>(&c), "env", true);
+    let mut c = ecfg("Env<3>: step size 1000, toggles", false, &[1], 1000, s - 1, 3, 1, &cl);
+    c.alpha = alpha_for(&[1], true);
+    absorb_env(&mut out, &c, 1, 3, run_env::<1, 3>(&c), "env", true);
+    let c = ecfg("Env<10>: tick 2", false, &[2], 50, s - 1, 2, 0, &cl);
+    absorb_env(&mut out, &c, 1, 10, run_env::<1, 10>(&c), "env", true);
+    // pre-populated book (one earlier step)
+    let mut c = ecfg("Env<3>: from a pre-populated two-sided book", false, &[1], 10, s - 1, 2, 0, &cl);
+    c.base = vec![
+        Act::Submit(Instr::New { a: 0, bid: true, vol: 2, price: Some(2) }),
+        Act::Submit(Instr::New { a: 0, bid: false, vol: 2, price: Some(3) }),
+        Act::Submit(Instr::New { a: 0, bid: false, vol: 1, price: Some(3) }),
+        Act::Step(vec![Ans::Frac(1, 3), Ans::Frac(0, 2)]),
+    ];
+    absorb_env(&mut out, &c, 1, 3, run_env::<1, 3>(&c), "env", true);
+    // multi asset
+    let c = ecfg("MarketEnv<2,3>: step size == max batch", true, &[1, 2], (s - 1) as u64, s - 1, 2, 0, &cl);
+    absorb_env(&mut out, &c, 2, 3, run_env::<2, 3>(&c), "market-env", true);
+    let c = ecfg("MarketEnv<2,3>: step size 1000, toggle", true, &[1, 2], 1000, s - 1, 2, 1, &cl);
+    absorb_env(&mut out, &c, 2, 3, run_env::<2, 3>(&c), "market-env", true);
+    out.assumptions = vec![
+        "plain stand-alone OrderBook (same library) is the replay target, plus the harness's reference engine".into(),
+        "batch sizes up to the step size (larger batches are C05's subject)".into(),
+    ];
+    out.finish()
+}
+
+pub fn c10(tier: &str) -> i32 {
+    let mut out = Outcome::new("C10", tier, "model_checking");
+    let t = crate::bookprops::thorough(tier);
+    let cl = Clauses { invisible: true, ..Default::default() };
+    let s = if t { 5 } else { 4 };
+    let mut c = ecfg("Env<3>: submissions, toggles, steps", false, &[1], 100, s, 2, 1, &cl);
+    c.alpha = alpha_for(&[1], true);
+    absorb_env(&mut out, &c, 1, 3, run_env::<1, 3>(&c), "env", false);
+    let c = ecfg("Env<10>: tick 2", false, &[2], 100, s - 1, 3, 1, &cl);
+    absorb_env(&mut out, &c, 1, 10, run_env::<1, 10>(&c), "env", false);
+    let c = ecfg("MarketEnv<2,3>", true, &[1, 2], 100, s - 1, 2, 1, &cl);
+    absorb_env(&mut out, &c, 2, 3, run_env::<2, 3>(&c), "market-env", false);
+    let mut c = ecfg("MarketEnv<2,3>: from a resting book, modify-only steps", true, &[1, 2], 100, s - 1, 2, 0, &cl);
+    c.base = vec![
+        Act::Submit(Instr::New { a: 0, bid: true, vol: 2, price: Some(2) }),
+        Act::Submit(Instr::New { a: 1, bid: true, vol: 2, price: Some(4) }),
+        Act::Submit(Instr::New { a: 1, bid: false, vol: 2, price: Some(6) }),
+        Act::Step(vec![Ans::Frac(0, 3), Ans::Frac(1, 2)]),
+    ];
+    absorb_env(&mut out, &c, 2, 3, run_env::<2, 3>(&c), "market-env", false);
+    let c = ecfg("MarketEnv<3,2>", true, &[1, 2, 3], 100, 3, 2, 0, &cl);
+    absorb_env(&mut out, &c, 3, 2, run_env::<3, 2>(&c), "market-env", false);
+    out.finish()
+}
+
+macro_rules! env_levels {
+    ($l:expr, $f:ident, $cfg:expr) => {
+        match $l {
+            1 => $f::<1, 1>($cfg), 2 => $f::<1, 2>($cfg), 3 => $f::<1, 3>($cfg), 4 => $f::<1, 4>($cfg),
+            5 => $f::<1, 5>($cfg), 6 => $f::<1, 6>($cfg), 7 => $f::<1, 7>($cfg), 8 => $f::<1, 8>($cfg),
+            9 => $f::<1, 9>($cfg), 10 => $f::<1, 10>($cfg), 11 => $f::<1, 11>($cfg), 12 => $f::<1, 12>($cfg),
+            13 => $f::<1, 13>($cfg), 14 => $f::<1, 14>($cfg), 15 => $f::<1, 15>($cfg), 16 => $f::<1, 16>($cfg),
+            17 => $f::<1, 17>($cfg), 18 => $f::<1, 18>($cfg), 19 => $f::<1, 19>($cfg), 20 => $f::<1, 20>($cfg),
+            21 => $f::<1, 21>($cfg), 22 => $f::<1, 22>($cfg), 23 => $f::<1, 23>($cfg), 24 => $f::<1, 24>($cfg),
+            _ => panic!("levels"),
+        }
+    };
+}
+
+pub fn c11(tier: &str) -> i32 {
+    let mut out = Outcome::new("C11", tier, "model_checking");
+    let t = crate::bookprops::thorough(tier);
+    let cl = Clauses { records: true, ..Default::default() };
+    let s = if t { 5 } else { 4 };
+    // asymmetric books are the rule: volumes 1/2, market 3, two prices per side
+    let mut c = ecfg("Env<3>: up to 3 steps, all schedules", false, &[1], 100, s, if t { 4 } else { 3 }, 0, &cl);
+    c.alpha = alpha_for(&[1], true);
+    absorb_env(&mut out, &c, 1, 3, run_env::<1, 3>(&c), "env", false);
+    let c = ecfg("Env<10>: tick 2", false, &[2], 100, s - 1, 3, 0, &cl);
+    absorb_env(&mut out, &c, 1, 10, run_env::<1, 10>(&c), "env", false);
+    // from an asymmetric resting book with three levels on one side
+    let mut c = ecfg("Env<3>: from an asymmetric three-level book", false, &[1], 100, s - 1, 2, 0, &cl);
+    c.base = vec![
+        Act::Submit(Instr::New { a: 0, bid: true, vol: 2, price: Some(2) }),
+        Act::Submit(Instr::New { a: 0, bid: true, vol: 1, price: Some(1) }),
+        Act::Submit(Instr::New { a: 0, bid: false, vol: 3, price: Some(4) }),
+        Act::Submit(Instr::New { a: 0, bid: false, vol: 1, price: Some(4) }),
+        Act::Step(vec![Ans::Frac(2, 4), Ans::Frac(0, 3), Ans::Frac(1, 2)]),
+    ];
+    absorb_env(&mut out, &c, 1, 3, run_env::<1, 3>(&c), "env", false);
+    for l in 1..=24usize {
+        let mut c = ecfg(&format!("Env<{}>: level sweep", l), false, &[1], 100, 3, 2, 0, &cl);
+        c.alpha.cancel = false;
+        let r = env_levels!(l, run_env, &c);
+        absorb_env(&mut out, &c, 1, l, r, "env", false);
+    }
+    let c = ecfg("MarketEnv<2,3>", true, &[1, 2], 100, s - 1, 3, 0, &cl);
+    absorb_env(&mut out, &c, 2, 3, run_env::<2, 3>(&c), "market-env", false);
+    let c = ecfg("MarketEnv<3,2>", true, &[1, 2, 3], 100, 3, 2, 0, &cl);
+    absorb_env(&mut out, &c, 3, 2, run_env::<3, 2>(&c), "market-env", false);
+    out.assumptions = vec!["live values are read through get_orderbook()/get_market() right after each step".into()];
+    out.finish()
+}
+
+pub fn c14(tier: &str) -> i32 {
+    let mut out = Outcome::new("C14", tier, "model_checking");
+    let t = crate::bookprops::thorough(tier);
+    crate::marketx::c14_market_part(&mut out, t);
+    let cl = Clauses { sched: true, model: true, ..Default::default() };
+    let s = if t { 5 } else { 4 };
+    let c = ecfg("MarketEnv<2,3>: shuffled batches across assets", true, &[1, 2], 100, s, 2, 0, &cl);
+    absorb_env(&mut out, &c, 2, 3, run_env::<2, 3>(&c), "market-env", true);
+    let c = ecfg("MarketEnv<3,2>: three assets", true, &[1, 2, 3], 100, s - 1, 2, 0, &cl);
+    absorb_env(&mut out, &c, 3, 2, run_env::<3, 2>(&c), "market-env", true);
+    let c = ecfg("MarketEnv<1,3>: one asset", true, &[3], 100, s - 1, 2, 1, &cl);
+    absorb_env(&mut out, &c, 1, 3, run_env::<1, 3>(&c), "market-env", true);
+    let mut c = ecfg("MarketEnv<4,3>: four assets", true, &[1, 2, 3, 5], 100, 3, 2, 0, &cl);
+    c.alpha.modify = false;
+    absorb_env(&mut out, &c, 4, 3, run_env::<4, 3>(&c), "market-env", true);
+    out.assumptions = vec!["shadow = stand-alone real OrderBooks fed only their asset's operations at the same times".into()];
+    out.finish()
+}
+
+/// C05: environment steps carrying more instructions than the step size has time units
+pub fn c05_env_part(out: &mut Outcome, t: bool) {
+    let cl = Clauses { sched: true, model: true, ..Default::default() };
+    let s = if t { 5 } else { 4 };
+    for step_size in [1u64, 2, 3] {
+        let mut c = ecfg(&format!("Env<3>: step size {} < batch, two steps", step_size), false, &[1], step_size, s, 2, 0, &cl);
+        c.alpha.prices = vec![vec![2, 3]];
+        absorb_env(out, &c, 1, 3, run_env::<1, 3>(&c), "env", true);
+    }
+    let c = ecfg("MarketEnv<2,3>: step size 1 < batch", true, &[1, 2], 1, s - 1, 2, 0, &cl);
+    absorb_env(out, &c, 2, 3, run_env::<2, 3>(&c), "market-env", true);
+}
+
+pub fn c12_env_part(out: &mut Outcome, t: bool) {
+    let cl = Clauses { grid: true, sched: true, ..Default::default() };
+    let s = if t { 4 } else { 3 };
+    let mut c = ecfg("Env<3> tick 2: off-grid submissions and modifies", false, &[2], 100, s, 2, 0, &cl);
+    c.alpha.badnew = true;
+    c.alpha.offgrid_modify = true;
+    absorb_env(out, &c, 1, 3, run_env::<1, 3>(&c), "env", false);
+    let mut c = ecfg("MarketEnv<2,3> ticks 3,5: off-grid submissions and modifies", true, &[3, 5], 100, s, 2, 0, &cl);
+    c.alpha.badnew = true;
+    c.alpha.offgrid_modify = true;
+    c.alpha.modify = false;
+    absorb_env(out, &c, 2, 3, run_env::<2, 3>(&c), "market-env", false);
+}
+
+pub fn c13_env_part(out: &mut Outcome, t: bool) {
+    let cl = Clauses { notrade: true, sched: true, model: true, ..Default::default() };
+    let s = if t { 4 } else { 3 };
+    let mut c = ecfg("Env<3>: toggles between submissions and steps", false, &[1], 100, s, 2, 2, &cl);
+    c.alpha = alpha_for(&[1], false);
+    absorb_env(out, &c, 1, 3, run_env::<1, 3>(&c), "env", false);
+    let mut c = ecfg("Env<3>: trading off at construction", false, &[1], 100, s, 2, 1, &cl);
+    c.start_trading = false;
+    absorb_env(out, &c, 1, 3, run_env::<1, 3>(&c), "env", false);
+    let c = ecfg("MarketEnv<2,3>: toggles", true, &[1, 2], 100, s, 2, 1, &cl);
+    absorb_env(out, &c, 2, 3, run_env::<2, 3>(&c), "market-env", false);
+}
